@@ -52,3 +52,51 @@ theorem evalE_eq_sem (e : E) (h : okTop cx e = true) : evalE cx e = sem cx e := 
   rw [evalW_ok cx hOK _ h.1.1 h.1.2, toW_val cx hOK e h.2]
 
 end MoSql.E
+
+namespace MoSql.E
+open MoSql MoSql.Infix
+
+section
+variable (cx : Ctx) (hOK : LevelsOK cx.levels)
+include hOK
+
+theorem leftover_ok (w : W Raw) (hwf : w.wfB cx.levels = true) (hc : w.compatB = true) :
+    (evalW cx w).leftover = [] := by
+  have := makeTree_flat (OpJson.builders cx.assoc) cx.levels hOK w (W.wf_of_wfB hwf)
+    (W.compat_of_compatB hc)
+  simp [evalW, this]
+
+mutual
+theorem drops_of_okSub : ∀ e : E, okSub cx e = true → drops cx e = false
+  | .atom _ _, _ => by simp [drops]
+  | .paren e, h => by
+    simp only [okSub] at h
+    simp only [drops]
+    exact dropsTop_of_okTop e h
+  | .call f args, h => by
+    simp only [okSub] at h
+    simp only [drops]
+    exact dropsList_of_okList args h
+  | .pre o e, h => by simp only [okSub] at h; simp only [drops]; exact drops_of_okSub e h
+  | .cast o e ty, h => by simp only [okSub] at h; simp only [drops]; exact drops_of_okSub e h
+  | .bin o l r, h => by
+    simp only [okSub, Bool.and_eq_true] at h
+    simp [drops, drops_of_okSub l h.1, drops_of_okSub r h.2]
+  | .tern o a b c, h => by
+    simp only [okSub, Bool.and_eq_true] at h
+    simp [drops, drops_of_okSub a h.1.1, drops_of_okSub b h.1.2, drops_of_okSub c h.2]
+theorem dropsList_of_okList : ∀ es : List E, okList cx es = true → dropsList cx es = false
+  | [], _ => by simp [dropsList]
+  | e :: es, h => by
+    simp only [okList, Bool.and_eq_true] at h
+    simp [dropsList, dropsTop_of_okTop e h.1, dropsList_of_okList es h.2]
+theorem dropsTop_of_okTop : ∀ e : E, okTop cx e = true → dropsTop cx e = false
+  | e, h => by
+    have h' := h
+    simp only [okTop, Bool.and_eq_true] at h'
+    have hl := leftover_ok cx hOK (toW cx e) h'.1.1 h'.1.2
+    simp [dropsTop, hl, drops_of_okSub e h'.2]
+end
+
+end
+end MoSql.E
